@@ -26,4 +26,5 @@ def run(chk):
     executor_contracts.on_task_complete(chk, "C06", want=("C06",))
     executor_contracts.resubmitter_total(chk, "C06")
     wrapper_contracts.classification(chk, "C06")
+    wrapper_contracts.control_signals_not_exceptions(chk, "C06")
     wrapper_contracts.checkpoint_error_classification(chk, "C06")
